@@ -1813,14 +1813,11 @@ func (p *Parser) match(kind TokenKind) bool {
 	return false
 }
 
+// expect consumes a token of the given kind; a missing token is recorded as a
+// parse error (it used to be ignored, which let unbalanced delimiters through).
 func (p *Parser) expect(kind TokenKind) {
-	if p.check(kind) {
-		p.advance()
-		return
-	}
-	// Handle >> splitting: when expecting >, accept >> and split it
-	if kind == TokenGreater && p.check(TokenGreaterGreater) {
-		p.splitGreaterGreater()
+	if err := p.expectErr(kind); err != nil {
+		p.errors = append(p.errors, *err)
 	}
 }
 
